@@ -250,6 +250,29 @@ pub fn run(family: &str, cases_path: &str, events_path: &str, gen_dir: &str, sha
             }
             out.ev(echo);
         }
+        // C09: what merging the subschema lists reports (hook verif_merge_all)
+        if let Some(ms) = case.get("merges").and_then(|m| m.as_array()) {
+            let defs_abs = calls_defs(case).unwrap_or(json!({}));
+            let mut defs: std::collections::BTreeMap<String, schemars::schema::Schema> = Default::default();
+            if let Some(o) = defs_abs.as_object() {
+                for (k, v) in o {
+                    if let Ok(sc) = abs::schema_of(v) {
+                        defs.insert(k.clone(), sc);
+                    }
+                }
+            }
+            for m in ms {
+                let subs: Vec<schemars::schema::Schema> = m["subs"].as_array().unwrap().iter()
+                    .filter_map(|x| abs::schema_of(x).ok()).collect();
+                let r = guarded(|| TypeSpace::verif_merge_all(&subs, &defs));
+                let never = match &r {
+                    Ok(schemars::schema::Schema::Bool(false)) => "never",
+                    Ok(_) => "some",
+                    Err(_) => "panic",
+                };
+                out.ev(json!({"ev": "merge", "case": case_no, "perm": m["perm"], "res": never}));
+            }
+        }
         let mut returned: Vec<Option<TypeId>> = vec![];
         let mut all_ok = true;
         let calls = case["calls"].as_array().cloned().unwrap_or_default();
